@@ -7,7 +7,7 @@ import shutil
 import tempfile
 
 
-def build(files: dict, conf: str = "", builder="html", parallel=0, keep=False, order=None):
+def build(files: dict, conf: str = "", builder="html", parallel=0, keep=False, order=None, extract=None):
     """files: {relative path: text}.  -> dict(doctrees={docname: pformat}, warnings=[lines], outdir, html={docname: text})"""
     from sphinx.application import Sphinx
     from sphinx.util.docutils import docutils_namespace, patch_docutils
@@ -35,6 +35,8 @@ def build(files: dict, conf: str = "", builder="html", parallel=0, keep=False, o
                 try:
                     dt = app.env.get_doctree(docname)
                     doctrees[docname] = dt.pformat()
+                    if extract is not None:
+                        out.setdefault("extracted", {})[docname] = extract(dt)
                 except Exception as exc:  # noqa: BLE001
                     doctrees[docname] = f"<no doctree: {exc}>"
             html = {}
@@ -43,7 +45,7 @@ def build(files: dict, conf: str = "", builder="html", parallel=0, keep=False, o
                     p = os.path.join(d, "out", docname + ".html")
                     if os.path.exists(p):
                         html[docname] = open(p, encoding="utf8").read()
-            out = {"doctrees": doctrees, "html": html, "warnings": [ln for ln in warning.getvalue().splitlines() if ln.strip()],
+            out = {"extracted": out.get("extracted", {}), "doctrees": doctrees, "html": html, "warnings": [ln for ln in warning.getvalue().splitlines() if ln.strip()],
                    "srcdir": src, "statuscode": app.statuscode}
     finally:
         if not keep:
